@@ -253,7 +253,6 @@ Proof.
            intro He. apply Hout. rewrite <- (w_inj _ _ W n0 n (v_done _ _ I n0 H) Hn He). exact H.
         -- apply dget_dset_same.
   - (* LitExec *)
-    assert (He : esc tab n = n) by (apply needs_esc_false_esc; exact (w_lit _ _ W n Hn K)).
     destruct (dmem (esc tab n) (s_repl st)) eqn:D.
     + assert (Hin : In n done).
       { destruct (in_dec name_eq_dec n done) as [H|H]; [exact H|].
@@ -263,20 +262,22 @@ Proof.
     + assert (Hout : ~ In n done).
       { intro H. unfold dmem in D. rewrite (v_repl_in _ _ I n H) in D by congruence. discriminate. }
       destruct (w_litv _ _ W n Hn K) as [v Hv].
-      replace (dget (esc tab n) (s_params st)) with (Some v)
-        by (rewrite He, (v_keep _ _ I n Hn (or_introl Hout)), Hv; reflexivity).
+      assert (Hg : dget n (s_params st) = Some v) by (rewrite (v_keep _ _ I n Hn (or_introl Hout)); exact Hv).
+      (* the un-escaped name is a key of the parameters: it is the one popped *)
+      assert (Hm : pop_key n (esc tab n) (s_params st) = n) by (unfold pop_key, dmem; rewrite Hg; reflexivity).
+      rewrite Hm, Hg.
       eexists. split; [reflexivity|]. destruct I.
       constructor; cbn [s_params s_repl s_upd s_newpos s_numpos s_procs]; try assumption.
-      * rewrite He. apply NoDup_keys_dpop. exact v_nodup0.
+      * apply NoDup_keys_dpop. exact v_nodup0.
       * intros n0 k v1 H Hxi. apply in_app_or in H. destruct H as [H|[<-|[]]].
-        -- rewrite He, dget_dpop_other; [apply (v_x0 n0); assumption|].
+        -- rewrite dget_dpop_other; [apply (v_x0 n0); assumption|].
            intros ->. exact (w_xfresh _ _ W n0 n (v_done0 n0 H) (xitem_name _ _ _ Hxi) Hn).
         -- rewrite xitems_nonexpand in Hxi by congruence. destruct Hxi.
       * intros k Hk H. assert (k <> n).
         { intros ->. destruct H as [H|H]; [apply H; apply in_or_app; right; left; reflexivity|congruence]. }
-        rewrite He, dget_dpop_other by assumption. apply v_keep0; [exact Hk|].
+        rewrite dget_dpop_other by assumption. apply v_keep0; [exact Hk|].
         destruct H as [H|H]; [left|right; exact H]. intro Hi. apply H. apply in_or_app. left. exact Hi.
-      * intros k H. rewrite He in H. apply In_keys_dpop in H. apply v_keys0. exact H.
+      * intros k H. apply In_keys_dpop in H. apply v_keys0. exact H.
       * intros n0 H Hk. apply in_app_or in H. destruct H as [H|[<-|[]]].
         -- rewrite dget_dset_other; [apply v_repl_in0; assumption|].
            intro He'. apply Hout. rewrite <- (w_inj _ _ W n0 n (v_done0 n0 H) Hn He'). exact H.
